@@ -54,10 +54,10 @@ Qed.
 
 (** the sequence of published events of a history depends on the starting stores only through the
     Votes store *)
-Theorem hist_events_depend_on_votes_only fx p e : forall xs s1 s2,
-  hs_votes s1 = hs_votes s2 -> hist_events fx p e s1 xs = hist_events fx p e s2 xs.
+Theorem hist_events_depend_on_votes_only fx p : forall xs s1 s2,
+  hs_votes s1 = hs_votes s2 -> hist_events fx p s1 xs = hist_events fx p s2 xs.
 Proof.
-  induction xs as [|x xs IH]; intros s1 s2 Hv; [reflexivity|].
+  induction xs as [|[e x] xs IH]; intros s1 s2 Hv; [reflexivity|].
   cbn [hist_events]. unfold hist_step. rewrite Hv.
   pose proof (end_block_events_indep_rates fx p e (put_votes (hs_votes s2) (hp_votes x)) (hs_rates s1) (hs_rates s2) (hp_h x)) as H.
   destruct (end_block fx p (env_state e (put_votes (hs_votes s2) (hp_votes x)) (hs_rates s1)) (hp_h x)) as [|r1 ev1];
@@ -67,12 +67,13 @@ Proof.
 Qed.
 
 (** MAIN: whatever happened before two vote-period ends (different earlier votes, sub-quorum periods,
-    silent validators, different stored rates), the rates published afterwards are the same function of
-    the steps that follow: a price depends only on the votes of its own period. *)
-Theorem period_votes_only fx p e s1 x1 s1' ev1 s2 x2 s2' ev2 xs :
-  hist_step fx p e s1 x1 = Some (s1', ev1) -> is_period_last (hp_h x1) (p_vote_period p) = true ->
-  hist_step fx p e s2 x2 = Some (s2', ev2) -> is_period_last (hp_h x2) (p_vote_period p) = true ->
-  hist_events fx p e s1' xs = hist_events fx p e s2' xs.
+    silent validators, different stored rates, different validator sets), the rates published afterwards
+    are the same function of the steps that follow: a price depends only on the votes of its own period
+    (and on the staking view at its own block). *)
+Theorem period_votes_only fx p e1 s1 x1 s1' ev1 e2 s2 x2 s2' ev2 xs :
+  hist_step fx p e1 s1 x1 = Some (s1', ev1) -> is_period_last (hp_h x1) (p_vote_period p) = true ->
+  hist_step fx p e2 s2 x2 = Some (s2', ev2) -> is_period_last (hp_h x2) (p_vote_period p) = true ->
+  hist_events fx p s1' xs = hist_events fx p s2' xs.
 Proof.
   intros H1 L1 H2 L2. apply hist_events_depend_on_votes_only.
   destruct (period_end_clears_votes _ _ _ _ _ _ _ H1 L1) as [-> _].
@@ -84,19 +85,20 @@ Qed.
 Definition hobs_of (s : hstate) (evs : list (nat * Z)) : hobs := mkHObs false (hs_rates s) evs (hs_votes s) (hs_prevotes s).
 Definition panic_hobs : hobs := mkHObs true [] [] [] [].
 
-Fixpoint hist_obs (fx : bool) (p : params) (e : henv) (s : hstate) (xs : list hstep) : list (hstep * hobs) :=
+Fixpoint hist_obs (fx : bool) (p : params) (s : hstate) (xs : list (henv * hstep)) : list (henv * hstep * hobs) :=
   match xs with
   | [] => []
-  | x :: r => match hist_step fx p e s x with
-              | None => [(x, panic_hobs)]
-              | Some (s', evs) => (x, hobs_of s' evs) :: hist_obs fx p e s' r
-              end
+  | (e, x) :: r => match hist_step fx p e s x with
+                   | None => [(e, x, panic_hobs)]
+                   | Some (s', evs) => (e, x, hobs_of s' evs) :: hist_obs fx p s' r
+                   end
   end.
 
-Theorem hist_holds p e : wf_env e -> forall xs s,
-  P_hist p e (hs_rates s) (hs_votes s) (hs_prevotes s) (hist_obs true p e s xs).
+Theorem hist_holds p : forall xs, Forall (fun ex => wf_env (fst ex)) xs -> forall s,
+  P_hist p (hs_rates s) (hs_votes s) (hs_prevotes s) (hist_obs true p s xs).
 Proof.
-  intros Hw. induction xs as [|x xs IH]; intro s; [exact I|].
+  induction xs as [|[e x] xs IH]; intros Hall s; [exact I|].
+  inversion Hall as [|? ? Hw Hr]; subst. simpl in Hw.
   cbn [hist_obs]. unfold hist_step.
   pose proof (end_block_holds p (env_state e (put_votes (hs_votes s) (hp_votes x)) (hs_rates s)) (hp_h x)
                               (wf_env_state e _ _ Hw)) as HP.
@@ -106,11 +108,11 @@ Proof.
     + cbn [P_hist]. split.
       * unfold P_hstep. cbv zeta. rewrite El. split; [exact HP | intros _; split; reflexivity].
       * intros _. cbv zeta. rewrite El.
-        apply (IH (mkHS rs [] (filter (keep_prevote p (hp_h x)) (put_prevotes (hs_prevotes s) (hp_prevotes x))))).
+        apply (IH Hr (mkHS rs [] (filter (keep_prevote p (hp_h x)) (put_prevotes (hs_prevotes s) (hp_prevotes x))))).
     + cbn [P_hist]. split.
       * unfold P_hstep. cbv zeta. rewrite El. split; [exact HP | intros _; split; reflexivity].
       * intros _. cbv zeta. rewrite El.
-        apply (IH (mkHS rs (put_votes (hs_votes s) (hp_votes x)) (put_prevotes (hs_prevotes s) (hp_prevotes x)))).
+        apply (IH Hr (mkHS rs (put_votes (hs_votes s) (hp_votes x)) (put_prevotes (hs_prevotes s) (hp_prevotes x)))).
 Qed.
 
 (* ---------------------------------------------------------------- non-vacuity *)
@@ -120,9 +122,9 @@ Qed.
 Definition e5 : henv := mkHEnv [mkVal 0 true 1; mkVal 1 true 1; mkVal 2 true 1; mkVal 3 true 1; mkVal 4 true 1] 100 5000000 1000000 [0%nat].
 Definition p5 : params := mkParams 1 500000000000000000 4 100 20000000000000000.
 Definition r18 (n : Z) : Z := n * 1000000000000000000.
-Definition xs5 : list hstep :=
-  [mkHStep [mkAVote 0 [(0%nat, r18 1000)]] [] 2;
+Definition xs5 : list (henv * hstep) :=
+  map (fun x => (e5, x)) [mkHStep [mkAVote 0 [(0%nat, r18 1000)]] [] 2;
    mkHStep [mkAVote 1 [(0%nat, r18 200)]; mkAVote 2 [(0%nat, r18 200)]; mkAVote 3 [(0%nat, r18 300)]; mkAVote 4 [(0%nat, r18 300)]] [] 3].
 Example ex_stale_vote_not_counted :
-  wf_env e5 /\ hist_events true p5 e5 (mkHS [] [] []) xs5 = [[]; [(0%nat, r18 200)]].
+  wf_env e5 /\ hist_events true p5 (mkHS [] [] []) xs5 = [[]; [(0%nat, r18 200)]].
 Proof. split; [intros v Hv; repeat (destruct Hv as [<-|Hv]; [simpl; lia|]); destruct Hv | vm_compute; reflexivity]. Qed.
